@@ -12,7 +12,9 @@
 //! the wrapper stores (Zstd, Huffman framing, Rans/Dictionary) and CachedBlobStore over any modelled inner
 //! store, stacks of them, DictZipBlobStore's bookkeeping (`XHist` / `XPlain` / `XPlainOpen` cases: the whole
 //! history on the whole stack; opaque codecs enter as the table of (input, output) pairs seen between two
-//! layers).  Everything else is S-only (oracle).
+//! layers), BatchZipOffsetBlobStoreBuilder (`XBatch`: the add_record / flush_batch calls made, ids, byte-exact image or
+//! refusal), NestLoudsTrieBlobStoreBuilder (`XNltb`: entries with repeated keys, reads by key and by id of the finished
+//! store), MemoryBlobStore::from_data + history (`XFromData`), ZeroLengthBlobStore::finish(n) + history (`XZeroFinish`).  Everything else is S-only (oracle).
 use crate::util::*;
 #[path = "c03_b.rs"]
 mod b;
@@ -32,7 +34,7 @@ use zipora::succinct::rank_select::RankSelectInterleaved256;
 use zipora::RecordId;
 
 const HEADER: &str = r#"From ZV.Common Require Import Base Run.
-From ZV.C03 Require Import Model ModelStore ModelWrap ModelCached ModelDictZip ModelPlain ModelZero ModelCases.
+From ZV.C03 Require Import Model ModelStore ModelWrap ModelCached ModelDictZip ModelPlain ModelZero ModelBatch ModelNltb ModelFromData ModelZeroFinish ModelCases.
 Open Scope N_scope.
 Definition case_t : Type := xcase.
 Definition ok (c : case_t) : bool := check_xcase c.
@@ -1390,9 +1392,10 @@ fn zo_config(name: &str) -> ZipOffsetBlobStoreConfig {
             let b = s.as_bytes();
             let level = (b.get(1).copied().unwrap_or(b'0') - b'0') as u8;
             let ck = (b.get(3).copied().unwrap_or(b'0') - b'0') as u8;
-            let oc = match b.get(5) { Some(b'p') => SortedUintVecConfig::performance_optimized(), Some(b'm') => SortedUintVecConfig::memory_optimized(), Some(b'x') => b::suv_config(&s[6..]), _ => SortedUintVecConfig::default() };
+            // the custom index configurations are written `c<l>k<k>x<log2>,<offset_width>,<sample_width>[,simd]` (the 'x' takes the place of the 'o')
+            let oc = if b.get(4) == Some(&b'x') { b::suv_config(&s[5..]) } else { match b.get(5) { Some(b'p') => SortedUintVecConfig::performance_optimized(), Some(b'm') => SortedUintVecConfig::memory_optimized(), Some(b'x') => b::suv_config(&s[6..]), _ => SortedUintVecConfig::default() } };
             // 'x' configurations also flip the two switches no preset but security_optimized touches
-            let plainer = b.get(5) == Some(&b'x');
+            let plainer = b.get(4) == Some(&b'x') || b.get(5) == Some(&b'x');
             ZipOffsetBlobStoreConfig { compress_level: level, checksum_level: ck, offset_config: oc, use_secure_memory: !plainer, enable_simd: !plainer }
         }
     }
@@ -1452,6 +1455,7 @@ fn run_build(cx: &mut Ctx, case: &Value, _force_coq: bool) {
     let recs_coq = format!("[{}]", recs.iter().map(|d| coq_bytes(d)).collect::<Vec<_>>().join("; "));
     let plain_env_dir = cx.env.dir.clone();
     let mut refused = false;
+    b::COQ_OUT.with(|c| *c.borrow_mut() = None);
     let r = guarded(|| -> Option<String> {
         match kind {
             "zipoffset" | "zipoffset_batch" => {
@@ -1474,7 +1478,10 @@ fn run_build(cx: &mut Ctx, case: &Value, _force_coq: bool) {
                             if cfg.compress_level == 0 && small { coq_term = Some(format!("CZip {} {} false []", zcfg_coq(&cfg), recs_coq)); }
                             return None;
                         }
-                        if kind == "zipoffset_batch" && cfg.compress_level == 0 && zo_capacity_exceeded(&cfg, &stored_lens) { return None; }
+                        if kind == "zipoffset_batch" && cfg.compress_level == 0 && zo_capacity_exceeded(&cfg, &stored_lens) {
+                            if small { coq_term = Some(format!("XBatch {} {} {} false []", zcfg_coq(&cfg), case["batch"].as_u64().unwrap_or(4), batch_ops_coq(&recs))); }
+                            return None;
+                        }
                         if kind == "zipoffset_batch" && cfg.compress_level > 0 && e.contains("too large") { return None; }
                         return Some(format!("finish() failed: {}", e));
                     }
@@ -1487,6 +1494,9 @@ fn run_build(cx: &mut Ctx, case: &Value, _force_coq: bool) {
                 if let Some(m) = check_built(&loaded, &recs, "after save->load") { return Some(m); }
                 if kind == "zipoffset" && cfg.compress_level == 0 && small && bytes.len() <= 2600 {
                     coq_term = Some(format!("CZip {} {} true {}", zcfg_coq(&cfg), recs_coq, coq_bytes(&bytes)));
+                }
+                if kind == "zipoffset_batch" && cfg.compress_level == 0 && small && bytes.len() <= 2600 {
+                    coq_term = Some(format!("XBatch {} {} {} true {}", zcfg_coq(&cfg), case["batch"].as_u64().unwrap_or(4), batch_ops_coq(&recs), coq_bytes(&bytes)));
                 }
                 // the loaded store goes through the secondary entry points as well (its configuration was rebuilt from the header)
                 if plan % 2 == 1 { if let Some(m) = b::zipoffset_extras(loaded, &recs, plan / 2, &plain_env_dir) { return Some(format!("loaded store: {}", m)); } }
@@ -1555,9 +1565,32 @@ fn run_build(cx: &mut Ctx, case: &Value, _force_coq: bool) {
             }
             "zerofinish" => {
                 let n = recs.len();
-                let s = ZeroLengthBlobStore::finish(n);
+                let mut s = ZeroLengthBlobStore::finish(n);
                 let empties: Vec<Vec<u8>> = vec![vec![]; n];
-                check_built(&s, &empties, "finish(n)")
+                if let Some(m) = check_built(&s, &empties, "finish(n)") { return Some(m); }
+                // the finished store through a short history, also as a Coq case (ModelZeroFinish.v): reads around n, len, two puts
+                // of the empty record (ids n and n + 1), the refused removal of an absent id
+                let mut shadow: HashMap<RecordId, Vec<u8>> = (0..n as u32).map(|i| (i, vec![])).collect();
+                let (mut cops, mut cobs): (Vec<String>, Vec<String>) = (vec![], vec![]);
+                let mut reads = |s: &ZeroLengthBlobStore, shadow: &HashMap<RecordId, Vec<u8>>, cops: &mut Vec<String>, cobs: &mut Vec<String>, ids: &[u32]| -> Option<String> {
+                    for &id in ids { if let Some(m) = probe(s, id, shadow) { return Some(format!("finish({}) then history: {}", n, m)); } cops.push(format!("XO (MQuery {})", id)); cobs.push(obs_of(shadow.get(&id))); }
+                    None
+                };
+                let around = [0u32, (n as u32).wrapping_sub(1), n as u32, n as u32 + 1, u32::MAX];
+                if let Some(m) = reads(&s, &shadow, &mut cops, &mut cobs, &around) { return Some(m); }
+                cops.push("XO MLen".into()); cobs.push(format!("[{}]%N", s.len()));
+                for k in 0..2u32 {
+                    match s.put(&[]) { Ok(id) => { if id != n as u32 + k { return Some(format!("put after finish({}) returned id {}", n, id)); } shadow.insert(id, vec![]); cops.push("XO (MPut [])".into()); cobs.push(format!("[{}]%N", id)); }
+                                       Err(e) => return Some(format!("put of an empty record after finish({}) failed: {}", n, e)) }
+                }
+                let absent = n as u32 + 7;
+                let removed = s.remove(absent).is_ok();
+                cops.push(format!("XO (MRemove {})", absent)); cobs.push(format!("[{}]%N", removed as u8));
+                if let Some(m) = reads(&s, &shadow, &mut cops, &mut cobs, &[n as u32, n as u32 + 1, n as u32 + 2, absent]) { return Some(m); }
+                cops.push("XO MLen".into()); cobs.push(format!("[{}]%N", s.len()));
+                if s.len() != n + 2 { return Some(format!("len() = {} after finish({}) and two puts", s.len(), n)); }
+                coq_term = Some(format!("XZeroFinish {} [{}] [{}]", n, cops.join("; "), cobs.join("; ")));
+                None
             }
             "memory_from_data" => {
                 let mut m: HashMap<RecordId, Vec<u8>> = HashMap::new();
@@ -1584,17 +1617,36 @@ fn run_build(cx: &mut Ctx, case: &Value, _force_coq: bool) {
                 let mut m: HashMap<RecordId, Vec<u8>> = HashMap::new();
                 for (id, d) in ids.iter().zip(recs.iter()) { m.insert(*id as RecordId, d.clone()); }
                 let mut shadow = m.clone();
+                // the same run as a Coq case (ModelFromData.v): the map in id order, the puts, a read of every id, a removal, len
+                let mut seeded: Vec<(RecordId, Vec<u8>)> = m.iter().map(|(k, v)| (*k, v.clone())).collect(); seeded.sort();
+                let seeded_coq = format!("[{}]", seeded.iter().map(|(k, v)| format!("({}, {})", k, coq_bytes(v))).collect::<Vec<_>>().join("; "));
+                let (mut cops, mut cobs): (Vec<String>, Vec<String>) = (vec![], vec![]);
                 let mut s = MemoryBlobStore::from_data(m);
                 for k in 0..case["puts"].as_u64().unwrap_or(3) {
                     let d = vec![200u8, k as u8];
                     match s.put(&d) {
-                        Ok(id) => { if shadow.contains_key(&id) { return Some(format!("put #{} returned id {} which is the id of a live record", k, id)); } shadow.insert(id, d); }
+                        Ok(id) => { cops.push(format!("MPut {}", coq_bytes(&d))); cobs.push(format!("[{}]%N", id));
+                                    if shadow.contains_key(&id) { if small { coq_term = Some(format!("XFromData {} [{}] [{}]", seeded_coq, cops.join("; "), cobs.join("; "))); } return Some(format!("put #{} returned id {} which is the id of a live record", k, id)); } shadow.insert(id, d); }
                         Err(e) => return Some(format!("put failed: {}", e)),
                     }
                 }
                 let mut all: Vec<RecordId> = shadow.keys().copied().collect(); all.sort();
-                for id in all { if let Some(x) = probe(&s, id, &shadow) { return Some(x); } }
+                for id in all.iter().copied() { if let Some(x) = probe(&s, id, &shadow) { return Some(x); } }
                 if s.len() != shadow.len() { return Some(format!("len() = {} but {} records are live", s.len(), shadow.len())); }
+                let mut probes: Vec<RecordId> = all.clone();
+                for extra in [0u32, all.last().copied().unwrap_or(0).wrapping_add(1), u32::MAX] { if !probes.contains(&extra) { probes.push(extra); } }
+                for id in probes.iter().copied() { cops.push(format!("MQuery {}", id)); cobs.push(match s.get(id) { Ok(d) => { let mut v = vec!["1".to_string(), d.len().to_string()]; v.extend(d.iter().map(|x| x.to_string())); format!("[{}]%N", v.join("; ")) } Err(_) => "[0]%N".into() }); }
+                cops.push("MLen".into()); cobs.push(format!("[{}]%N", s.len()));
+                if let Some(first) = all.first().copied() {
+                    // a seeded record can be removed like any other, and its id stays absent
+                    let ok = s.remove(first).is_ok(); shadow.remove(&first);
+                    cops.push(format!("MRemove {}", first)); cobs.push(format!("[{}]%N", ok as u8));
+                    cops.push(format!("MQuery {}", first)); cobs.push(if s.get(first).is_ok() { "[1]%N".into() } else { "[0]%N".into() });
+                    cops.push("MLen".into()); cobs.push(format!("[{}]%N", s.len()));
+                    if let Some(x) = probe(&s, first, &shadow) { return Some(format!("after remove: {}", x)); }
+                    if s.len() != shadow.len() { return Some(format!("after remove: len() = {} but {} records are live", s.len(), shadow.len())); }
+                }
+                if small && seeded.len() <= 40 { coq_term = Some(format!("XFromData {} [{}] [{}]", seeded_coq, cops.join("; "), cobs.join("; "))); }
                 None
             }
             "plain_seeded" => {
@@ -1643,6 +1695,7 @@ fn run_build(cx: &mut Ctx, case: &Value, _force_coq: bool) {
             }
             "nlt_builder" => {
                 let cfg = match cfgname { "perf" => TrieBlobStoreConfig::performance_optimized(), "mem" => TrieBlobStoreConfig::memory_optimized(), "sec" => TrieBlobStoreConfig::security_optimized(), _ => TrieBlobStoreConfig::default() };
+                let sorts = cfg.enable_batch_optimization;
                 let mut b = match NestLoudsTrieBlobStoreBuilder::<RankSelectInterleaved256>::new(cfg) { Ok(b) => b, Err(e) => return Some(format!("builder construction failed: {}", e)) };
                 let keys: Vec<Vec<u8>> = (0..recs.len()).map(|i| format!("k{:04}", (i * 7919) % 10007).into_bytes()).collect();
                 for (k, d) in keys.iter().zip(recs.iter()) { if let Err(e) = b.add(k, d) { return Some(format!("add failed: {}", e)); } }
@@ -1657,21 +1710,28 @@ fn run_build(cx: &mut Ctx, case: &Value, _force_coq: bool) {
                 if got != want { return Some("records under ids 0..n are not the records added".to_string()); }
                 if s.len() != recs.len() { return Some(format!("len() = {} but {} records were added", s.len(), recs.len())); }
                 if s.get(recs.len() as RecordId).is_ok() || s.contains(recs.len() as RecordId) { return Some("id n reported present".into()); }
+                coq_term = b::nltb_coq_case(sorts, &keys, &recs, &mut s);
                 None
             }
             _ => Some(format!("unknown build cell {}", kind)),
         }
     });
     match r { Ok(x) => failure = x, Err(p) => failure = Some(format!("panicked: {}", p)) }
+    if coq_term.is_none() && failure.is_none() { coq_term = b::COQ_OUT.with(|c| c.borrow_mut().take()); }
     if refused { cx.sum.dist(&format!("builder_refusals:{}", kind)); }
     if let Some(m) = failure {
         let class = if kind == "memory_seeded" && seeded_wraps(case) { Some("memory_id_wraparound") } else if kind == "plain_seeded" && seeded_wraps(case) { Some("plain_id_wraparound") } else { None };
         cx.sum.fail(&cell, class, case.clone(), &m);
         // the model predicts the panic of new() as well
-        if let (Some(t), true) = (coq_term, kind == "plain_seeded" && class.is_some()) { cx.shards.push(t, case.clone()); }
+        if let (Some(t), true) = (coq_term, (kind == "plain_seeded" || kind == "memory_seeded") && class.is_some()) { cx.shards.push(t, case.clone()); }
     } else if let Some(t) = coq_term {
-        if _force_coq || cx.shards.len() < cx.budget { cx.shards.push(if t.starts_with("XPlainOpen") { t } else { format!("XOld ({})", t) }, case.clone()); }
+        if _force_coq || cx.shards.len() < cx.budget { cx.shards.push(if t.starts_with('X') { t } else { format!("XOld ({})", t) }, case.clone()); }
     }
+}
+
+/// the add_record / flush_batch calls the batch-builder helper made, as a `list bop`
+fn batch_ops_coq(recs: &[Vec<u8>]) -> String {
+    b::BATCH_OPS.with(|o| format!("[{}]", o.borrow().iter().map(|x| match x { Some(i) => format!("BAdd {}", coq_bytes(&recs[*i])), None => "BFlush".to_string() }).collect::<Vec<_>>().join("; ")))
 }
 
 fn zcfg_coq(c: &ZipOffsetBlobStoreConfig) -> String {
@@ -2113,6 +2173,32 @@ pub fn run(args: &Args) {
             cx.sum.dist("nlt_builder_duplicate_keys");
         }
     }
+    // 3e''. the two builders with a mechanism model (ModelBatch.v, ModelNltb.v), always evaluated inside Coq: the batch builder
+    //       under batch sizes 0 / 1 / 2 / 3 / 64 / 100 with and without explicit flush_batch calls (empty records included), a
+    //       refusal of finish() reached through the batch path, and the trie store's builder with every key added three times
+    //       under all four presets through finish / finish_with_progress / sort_entries
+    for (ci, cfgname) in ["c0k0om", "c0k2od", "c0k0x4,8,16", "default"].iter().enumerate() {
+        for (bi, bsz) in [0u64, 1, 2, 3, 64, 100].iter().enumerate() {
+            let n = 5 + 3 * bi as u64 + ci as u64;
+            let recs: Vec<Value> = (0..n).map(|i| json!([if i % 4 == 1 { 0 } else { 3 }, (i * 5 + ci as u64) % 11, i + 40 * bi as u64])).collect();
+            for plan in [0u64, 2 + 4 * (bi as u64 + 7 * ci as u64)] {
+                run_case(&mut cx, &json!({"cell": format!("zipoffset_batch:{}", cfgname), "kind": "build", "recs": recs, "batch": bsz, "plan": plan}), true);
+                cx.sum.dist("modelled_batch_builder_cases");
+            }
+        }
+    }
+    for bsz in [0u64, 2, 4, 64] {
+        // 16-unit blocks with 8-bit deltas: the span of the first block exceeds 255 -> finish() refuses, also through the batch path
+        let recs: Vec<Value> = (0..7u64).map(|i| json!([3, 50 + i, i])).collect();
+        run_case(&mut cx, &json!({"cell": "zipoffset_batch:c0k0x4,8,16", "kind": "build", "recs": recs, "batch": bsz, "plan": 6 * bsz}), true);
+        cx.sum.dist("modelled_batch_builder_cases");
+    }
+    for (spec, n) in [("nlt_builder2:default", 30u64), ("nlt_builder2:perf", 45), ("nlt_builder2:sec", 60), ("nlt_builder2:mem", 64), ("nlt_builder2:mem", 27)] {
+        for plan in [8u64, 13, 24, 3] {
+            run_case(&mut cx, &json!({"cell": spec, "kind": "build", "recs_gen": [n, 7, (args.seed % 11) + n + plan], "plan": plan}), true);
+            cx.sum.dist("modelled_nlt_builder_cases");
+        }
+    }
     for (cfgname, sw, bsz) in [("c0k0x4,32,16", 16u32, 16usize), ("c0k2x4,32,16", 16, 16), ("c0k0x5,24,20", 20, 32)] {
         let extra = if cfgname.as_bytes()[3] == b'2' { 4usize } else { 0 };
         for target in [(1usize << sw) - 1, 1 << sw, (1 << sw) + 1] {
@@ -2213,7 +2299,7 @@ pub fn run(args: &Args) {
     }
     cx.sum.dist_max("coq_cases", cx.shards.len() as u64);
     for (cell, _) in cx.sum.cells.clone() {
-        let modelled = cell.strip_prefix("history/").map(|sp| xmodel_of(sp).is_some()).unwrap_or(false) || cell.starts_with("build/zipoffset:c0") || cell.starts_with("build/mixed") || cell.starts_with("build/simplezip") || cell == "build/zeroputs" || cell == "build/plain_seeded";
+        let modelled = cell.strip_prefix("history/").map(|sp| xmodel_of(sp).is_some()).unwrap_or(false) || cell.starts_with("build/zipoffset:c0") || cell.starts_with("build/zipoffset_batch:c0") || cell.starts_with("build/nlt_builder") || cell == "build/memory_seeded" || cell.starts_with("build/mixed") || cell.starts_with("build/simplezip") || cell == "build/zeroputs" || cell == "build/zerofinish" || cell == "build/plain_seeded";
         if !modelled { cx.sum.cell_status(&cell, "S-only"); }
     }
     let sh = cx.shards.write(&args.out);
